@@ -75,6 +75,9 @@ struct Scn {
     ephemeral: Option<(u16, u16)>,
     /// the accepting side keeps a stream this long after it saw the peer's close
     accept_linger_ms: u64,
+    /// the listener host's software returns Ok(()) after its last listener lifetime (the host
+    /// stays registered but is no longer scheduled)
+    listener_returns: bool,
 }
 
 #[derive(Clone, Debug)]
@@ -84,6 +87,8 @@ enum Ev {
     Accept { peer: String, local: String },
     /// the accepting side dropped the stream it had accepted from `peer`
     AcceptedDropped { peer: String },
+    /// the listener host's software is about to return Ok(())
+    ListenerHostReturns,
     Nonce { peer: String, nonce: u64 },
     ConnCall { id: usize, host: usize },
     ConnOk { id: usize, local: String, peer: String },
@@ -158,6 +163,11 @@ async fn listener_program(log: Log<Ev>, s: Scn) -> turmoil::Result {
         tokio::time::sleep_until(deadline).await;
         log.push(Ev::Unbind { lt });
         drop(listener);
+    }
+    if s.listener_returns {
+        tokio::time::sleep(Duration::from_millis(1)).await;
+        log.push(Ev::ListenerHostReturns);
+        return Ok(());
     }
     std::future::pending::<()>().await;
     Ok(())
@@ -278,6 +288,7 @@ fn gen(seed: u64) -> Scn {
     // can reuse the address pair of a stream the listener side still holds
     let mut ephemeral = None;
     let mut accept_linger_ms = 0;
+    let mut listener_returns = false;
     if !flood && nhosts >= 2 && r.chance(0.08) {
         flood = true; // no link faults in this shape either
         let nports = r.range(2, 3) as u16;
@@ -294,6 +305,21 @@ fn gen(seed: u64) -> Scn {
             at += 2 * max_ms + hold + 4 * tick_ms + 2 + r.range(0, 3);
         }
         lifetimes = vec![Lifetime { bind_at: 0, loopback_bind: false, accepts: vec![0; 12], drop_at: at + 4 * max_ms + 60 }];
+    }
+    // "listener host returns" shape: the software of the listening host ends (dropping its
+    // listener); later connectors must be refused like for any port nobody listens on
+    if !flood && nhosts >= 2 && r.chance(0.05) {
+        flood = true;
+        listener_returns = true;
+        (min_ms, max_ms) = (2, 2);
+        let t_end = r.range(18, 34); // after the early stream is closed on both sides (tasks of a finished host are never run again)
+        lifetimes = vec![Lifetime { bind_at: 0, loopback_bind: false, accepts: vec![0, 0], drop_at: t_end }];
+        conns.clear();
+        conns.push(Conn { host: r.range(1, nhosts as u64 - 1) as usize, target: Target::Listener, at: 2, timeout: None, hold: 3 });
+        for _ in 0..r.range(1, 3) {
+            // the request is sent before or after the software returns, it arrives afterwards or just before
+            conns.push(Conn { host: r.range(1, nhosts as u64 - 1) as usize, target: Target::Listener, at: t_end + r.range(0, 12), timeout: None, hold: 3 });
+        }
     }
     let horizon = horizon.max(lifetimes.last().map(|l| l.drop_at + 10).unwrap_or(0));
     let fault = if flood {
@@ -323,6 +349,7 @@ fn gen(seed: u64) -> Scn {
         tcp_cap,
         ephemeral,
         accept_linger_ms,
+        listener_returns,
     }
 }
 
@@ -513,6 +540,7 @@ fn scenario(s: Scn) -> ScenarioOut {
     // peer address -> intervals (accept seq, drop seq) during which the listener host holds a stream accepted from it
     let mut held_pairs: BTreeMap<String, Vec<(u64, Option<u64>)>> = BTreeMap::new();
     let mut queued_at: BTreeMap<usize, u64> = BTreeMap::new();
+    let mut listener_returned_step: Option<u64> = None;
     let mut lo_fifo: VecDeque<usize> = VecDeque::new(); // same-host connects awaiting loopback delivery
     let mut bound: Option<bool> = None; // Some(loopback_bind)
     let mut queue: VecDeque<usize> = VecDeque::new();
@@ -522,6 +550,8 @@ fn scenario(s: Scn) -> ScenarioOut {
     let mut by_src: BTreeMap<String, usize> = BTreeMap::new(); // latest conn with this source address
     let mut link_held: std::collections::BTreeSet<usize> = Default::default(); // hosts whose link to h0 is held
     let min_steps = s.min_ms.div_ceil(s.tick_ms);
+    let max_steps = s.max_ms.div_ceil(s.tick_ms);
+    let last_step = hev.iter().map(|x| x.1).max().unwrap_or(0).max(trace.iter().map(|t| t.step).max().unwrap_or(0));
     for it in &items {
         match it {
             Item::H(seq, step, e) => match e {
@@ -593,6 +623,7 @@ fn scenario(s: Scn) -> ScenarioOut {
                     }
                     out.count("accepts", 1);
                 }
+                Ev::ListenerHostReturns => listener_returned_step = Some(*step),
                 Ev::AcceptedDropped { peer } => {
                     if let Some(iv) = held_pairs.get_mut(peer).and_then(|v| v.iter_mut().rev().find(|x| x.1.is_none())) {
                         iv.1 = Some(*seq);
@@ -769,6 +800,16 @@ fn scenario(s: Scn) -> ScenarioOut {
             CState::Unmatched { step } => must_refuse("no matching listener was bound when its SYN arrived", *step, &mut out),
             CState::PartitionDropped { step } => must_refuse("its SYN was still in flight (or held) when the direction was partitioned", *step, &mut out),
             CState::ListenerDropped { step } => must_refuse("the listener was dropped before accepting it", *step, &mut out),
+            CState::InFlight if matches!(s.fault, Fault::None) && (tgt == Target::Listener || tgt == Target::DeadPort) && s.conns[id].host != 0 && c.sent_step > 0 && c.sent_step + max_steps + 3 + grace < last_step => {
+                // a request on a healthy link is handed to the destination host's network stack
+                // within the latency bound; there it is queued, or refused
+                out.count("requests_never_processed_by_the_destination", 1);
+                let why = match listener_returned_step {
+                    Some(rs) if rs <= c.sent_step + max_steps + 1 => "the listener host's software had returned: its network stack no longer answers",
+                    _ => "its SYN was never handed to the destination host",
+                };
+                must_refuse(why, c.sent_step + max_steps + 1, &mut out);
+            }
             CState::InFlight | CState::Queued => {
                 if ok {
                     out.violate("connect-ok-unexpected", format!("C12|connect-ok-unexpected|never-accepted|{shape}"), format!("connector #{id} succeeded although no accept returned its stream (state {:?})", c.state), desc.clone());
